@@ -92,7 +92,7 @@ func c16a(c *Ctx) {
 	opens := f.Calls(Callee{pkgNote, "", "Open"})
 	var first []Site
 	for _, s := range opens {
-		if bo := objOf(info, s.Call.Args[0]); bo != nil {
+		if bo := objOf(info, f.copyRoot(s.Call.Args[0])); bo != nil {
 			// the request note: a variable defined by bytes.Cut of the body
 			for _, d := range f.Defs(bo) {
 				if d.Kind == DefAssign && d.Idx == 1 {
@@ -249,7 +249,7 @@ func c16b(c *Ctx) {
 	sg, vd, cs := signs[0].Call, valid[0].Call, check[0].Call
 	// the same variable, and not written again once it has been validated
 	same := func(a, b ast.Expr) bool {
-		oa, ob := objOf(info, a), objOf(info, b)
+		oa, ob := objOf(info, f.copyRoot(a)), objOf(info, f.copyRoot(b))
 		if oa == nil || oa != ob {
 			return false
 		}
